@@ -24,8 +24,16 @@ func VH_C02_stash() {
 	}
 	c := w.spawn(w.root, "a", a)
 	s := vrtChoose(vrtParam("maxstash", 4) + 1)
+	viaScheduler := vrtBool() // the messages arrive as scheduled deliveries (SchedulerMessage unwrapped by the context)
 	for i := 0; i < s; i++ {
-		c.TellSelf(&vhUserMsg{N: i})
+		if viaScheduler {
+			c.TellSelf(&SchedulerMessage{Reference: "r", Message: &vhUserMsg{N: i}})
+		} else {
+			c.TellSelf(&vhUserMsg{N: i})
+		}
+	}
+	if viaScheduler && s >= 2 {
+		vrtReach("stashed-scheduled-deliveries")
 	}
 	w.run(100, "setup")
 	vrtAssert(c.StashCount() == s, "stash-count")
